@@ -90,3 +90,13 @@ Proof.
   unfold g_find_network_freq_range, find_network_freq_range. destruct (all_amp_bands g) as [|b t]; [exact I|].
   reflexivity.
 Qed.
+
+(* one step of the walk of build_oms_list from a non-ROADM element *)
+Lemma gen_walk_step g f x y n :
+  lookup g y = Some n -> kind_eqb (kind n) KRoadm = false ->
+  same_res (walk g (S f) x y)
+           (let* nx := g_walk_next x y (succs n) in let* r := walk g f y nx in Ok (y :: r)).
+Proof.
+  intros Hn Hk. cbn [walk]. rewrite Hn, Hk. unfold g_walk_next.
+  destruct (filter (fun s => negb (s =? x)) (succs n)) as [|nx l]; [exact I|]. cbn [bind]. apply same_res_refl.
+Qed.
